@@ -4,6 +4,7 @@ from rules import session as S
 from rules import layout as LY
 from rules import fdseg
 from rules import flow as F
+from rules import timing as TM
 
 TRUSTED_BASE = ["/verif/spec/sae.py (tables transcribed from SAE J1939-21/-22)", "/verif/sa/bits.py transfer functions"]
 
@@ -17,6 +18,9 @@ def run(ctx):
     ctx.rule("R-CTS-BORDER", "as responder: CTS at the border the announced windows imply (a conforming originator is never left waiting)", floor=4)
     ctx.rule("R-GRANT-MIN", "as responder: grants bounded by the peer's RTS limit, own maximum and the remaining count", floor=6)
     ctx.rule("R-DISPATCH", "PGN and control-byte constants equal the SAE values", floor=15)
+    ctx.rule("R-SEG-CEIL", "announced packet / segment count = ceil(len/7) resp. ceil(len/60): exactly the data packets that follow", floor=4)
+    ctx.rule("R-WAKEUP-COVER", "a paced / re-armed session's new deadline reaches the job pass's next wake-up (DT spacing stays within the peer's T1)", floor=6)
+    ctx.rule("R-ANNOUNCED-PGN", "the PGN bytes of RTS/BAM are data page | PF | PS-or-0 of the message's parameter group", floor=8)
     for fd in (False, True):
         L = T.Layer(ctx, fd=fd)
         LY.builders(ctx, L)
@@ -24,6 +28,9 @@ def run(ctx):
         T.dispatch(ctx, L)
         F.cts_border(ctx, L)
         F.grant_min(ctx, L)
+        T.seg_ceil(ctx, L)
+        LY.announced_pgn(ctx, L)
+        TM.wakeup_cover(ctx, L)
         if fd:
             LY.lut_legal(ctx, L)
             fdseg.seg_const_fd(ctx, L)
